@@ -332,3 +332,257 @@ Proof.
     cbn [dom_of fst snd forest_ok ends_text is_text_node]. rewrite andb_false_r, Hwf.
     split; [reflexivity|discriminate].
 Qed.
+
+(** * Tokenizer: running over a serialised node yields its tokens *)
+Fixpoint toks (d : dom) : list token :=
+  match d with
+  | DText s => map TChar s
+  | DComment _ => [TComment []]
+  | DElem n a ks =>
+      TStart n a ::
+      (if is_void n then []
+       else (fix go (l : list dom) : list token :=
+               match l with [] => [] | k :: l => toks k ++ go l end) ks ++ [TEnd n])
+  end.
+Fixpoint toks_forest (l : list dom) : list token :=
+  match l with [] => [] | k :: l => toks k ++ toks_forest l end.
+
+Lemma toks_elem n a ks :
+  toks (DElem n a ks) = TStart n a :: (if is_void n then [] else toks_forest ks ++ [TEnd n]).
+Proof. reflexivity. Qed.
+
+Lemma run_tok_app st a b : run_tok st (a ++ b) = run_tok (run_tok st a) b.
+Proof. apply fold_left_app. Qed.
+
+Lemma run_text out s : run_tok (MData, out) (esc_text s) = (MData, rev (map TChar s) ++ out).
+Proof.
+  revert out. induction s as [|c s IH]; intro out; [reflexivity|].
+  cbn [esc_text flat_map]. fold (esc_text s). rewrite run_tok_app.
+  cbn [map rev]. rewrite <- app_assoc. cbn [app].
+  unfold esc_text_byte.
+  destruct (N.eqb_spec c 38) as [->|H38]; [apply IH|].
+  destruct (N.eqb_spec c 60) as [->|H60]; [apply IH|].
+  destruct (N.eqb_spec c 62) as [->|H62]; [apply IH|].
+  cbn [run_tok fold_left step].
+  apply N.eqb_neq in H38, H60. rewrite H38, H60. apply IH.
+Qed.
+
+Lemma run_attr_value tg an av out v :
+  text_ok v = true ->
+  run_tok (MAttrValDQ tg an av, out) (esc_attr v) = (MAttrValDQ tg an (rev v ++ av), out).
+Proof.
+  revert av. induction v as [|c v IH]; intros av Hv; [reflexivity|].
+  cbn [text_ok forallb] in Hv. apply andb_true_iff in Hv as [Hc Hv].
+  cbn [esc_attr flat_map]. fold (esc_attr v). rewrite run_tok_app.
+  cbn [rev]. rewrite <- app_assoc. cbn [app].
+  unfold esc_attr_byte, esc_text_byte.
+  destruct (N.eqb_spec c 34) as [->|H34]; [apply (IH _ Hv)|].
+  destruct (N.eqb_spec c 38) as [->|H38]; [apply (IH _ Hv)|].
+  destruct (N.eqb_spec c 60) as [->|H60]; [apply (IH _ Hv)|].
+  destruct (N.eqb_spec c 62) as [->|H62]; [apply (IH _ Hv)|].
+  cbn [run_tok fold_left step].
+  unfold char_ok in Hc. apply andb_true_iff in Hc as [H0 _]. apply negb_true_iff in H0.
+  apply N.eqb_neq in H34, H38. rewrite H34, H38, H0. apply (IH _ Hv).
+Qed.
+
+(** characters of names *)
+Lemma name_char_props c :
+  name_char c = true ->
+  is_ws c = false /\ (c =? 47) = false /\ (c =? 62) = false /\ (c =? 0) = false /\ (c =? 61) = false /\
+  (c =? 34) = false /\ (c =? 39) = false /\ (c =? 60) = false /\ lower c = c.
+Proof.
+  unfold name_char, is_lower, is_digit, in_range. intro H.
+  rewrite !orb_true_iff, !andb_true_iff, !N.leb_le, N.eqb_eq in H.
+  unfold is_ws, lower, is_upper, in_range.
+  repeat split; try (apply N.eqb_neq; lia).
+  - rewrite !orb_false_iff. repeat split; apply N.eqb_neq; lia.
+  - destruct ((65 <=? c) && (c <=? 90)) eqn:E; [|reflexivity].
+    apply andb_true_iff in E as [E1 E2]. apply N.leb_le in E1, E2. lia.
+Qed.
+
+Lemma lower_is_alpha c : is_lower c = true -> is_alpha c = true /\ name_char c = true.
+Proof. intro H. unfold is_alpha, name_char. rewrite H. now rewrite orb_true_r. Qed.
+
+Lemma run_tag_name e acc out n :
+  forallb name_char n = true ->
+  run_tok (MTagName e acc, out) n = (MTagName e (rev n ++ acc), out).
+Proof.
+  revert acc. induction n as [|c n IH]; intros acc Hn; [reflexivity|].
+  cbn [forallb] in Hn. apply andb_true_iff in Hn as [Hc Hn].
+  destruct (name_char_props c Hc) as (Hws & H47 & H62 & H0 & _ & _ & _ & _ & Hl).
+  cbn [run_tok fold_left step]. rewrite Hws, H47, H62, H0, Hl.
+  cbn [rev]. rewrite <- app_assoc. apply (IH _ Hn).
+Qed.
+
+Lemma run_attr_name tg acc out n :
+  forallb name_char n = true ->
+  run_tok (MAttrName tg acc, out) n = (MAttrName tg (rev n ++ acc), out).
+Proof.
+  revert acc. induction n as [|c n IH]; intros acc Hn; [reflexivity|].
+  cbn [forallb] in Hn. apply andb_true_iff in Hn as [Hc Hn].
+  destruct (name_char_props c Hc) as (Hws & H47 & H62 & H0 & H61 & H34 & H39 & H60 & Hl).
+  cbn [run_tok fold_left step]. unfold step_attr_name. rewrite Hws, H47, H62, H61, H34, H39, H60, H0, Hl.
+  cbn [orb rev]. rewrite <- app_assoc. apply (IH _ Hn).
+Qed.
+
+Definition with_attrs (tg : tagacc) (l : list attr) : tagacc :=
+  {| t_end := t_end tg; t_name := t_name tg; t_attrs := l |}.
+
+Definition names_disjoint (done todo : list attr) : Prop :=
+  forall x y, In x done -> In y todo -> bytes_eqb (fst y) (fst x) = false.
+
+Lemma nodup_names_cons a l :
+  nodup_names (a :: l) = true ->
+  (forall y, In y l -> bytes_eqb (fst a) (fst y) = false) /\ nodup_names l = true.
+Proof.
+  cbn [nodup_names]. intro H. apply andb_true_iff in H as [H1 H2]. split; [|exact H2].
+  apply negb_true_iff in H1. intros y Hy.
+  destruct (bytes_eqb (fst a) (fst y)) eqn:E; [|reflexivity].
+  assert (existsb (fun b => bytes_eqb (fst a) (fst b)) l = true) by (apply existsb_exists; eauto).
+  congruence.
+Qed.
+
+Lemma run_cons st c s : run_tok st (c :: s) = run_tok (step st c) s.
+Proof. reflexivity. Qed.
+Lemma run_nil st : run_tok st [] = st.
+Proof. reflexivity. Qed.
+
+Lemma run_attrs a : forall tg out,
+  forallb (fun x => name_ok (fst x) && text_ok (snd x)) a = true ->
+  nodup_names a = true -> names_disjoint (t_attrs tg) a ->
+  run_tok (MAfterAttrValQ tg, out) (attrs_html a ++ [62]) =
+  emit_tag (with_attrs tg (rev a ++ t_attrs tg)) out.
+Proof.
+  induction a as [|[k v] a IH]; intros tg out Hok Hnd Hdis.
+  - cbn. destruct tg; reflexivity.
+  - cbn [forallb fst snd] in Hok. apply andb_true_iff in Hok as [Hkv Hok].
+    apply andb_true_iff in Hkv as [Hk Hv].
+    apply nodup_names_cons in Hnd as [Hfresh Hnd]. cbn [fst] in Hfresh.
+    cbn [attrs_html flat_map]. fold (attrs_html a). unfold attr_html. cbn [fst snd].
+    rewrite <- !app_assoc. cbn [app].
+    destruct k as [|k0 k]; [discriminate|].
+    unfold name_ok in Hk. apply andb_true_iff in Hk as [Hk0 Hkall].
+    cbn [forallb] in Hkall. apply andb_true_iff in Hkall as [Hk0c Hkrest].
+    destruct (name_char_props k0 Hk0c) as (Hws & H47 & H62 & H0 & H61 & H34 & H39 & H60 & Hl).
+    (* space, first name character *)
+    rewrite run_cons.
+    replace (step (MAfterAttrValQ tg, out) 32) with (MBeforeAttrName tg, out) by reflexivity.
+    cbn [app]. rewrite run_cons.
+    replace (step (MBeforeAttrName tg, out) k0) with (MAttrName tg [k0], out).
+    2:{ cbn [step]. rewrite Hws, H47, H62, H61. unfold step_attr_name.
+        now rewrite Hws, H47, H62, H61, H34, H39, H60, H0, Hl. }
+    (* rest of the name *)
+    rewrite run_tok_app, (run_attr_name tg [k0] out k Hkrest).
+    (* = " value " *)
+    rewrite run_cons.
+    replace (step (MAttrName tg (rev k ++ [k0]), out) 61) with (MBeforeAttrValue tg (rev k ++ [k0]), out) by reflexivity.
+    rewrite run_cons.
+    replace (step (MBeforeAttrValue tg (rev k ++ [k0]), out) 34) with (MAttrValDQ tg (rev k ++ [k0]) [], out) by reflexivity.
+    rewrite run_tok_app, (run_attr_value _ _ _ _ _ Hv). rewrite app_nil_r.
+    rewrite run_cons.
+    replace (step (MAttrValDQ tg (rev k ++ [k0]) (rev v), out) 34)
+      with (MAfterAttrValQ (add_attr tg (rev k ++ [k0]) (rev v)), out) by reflexivity.
+    (* the attribute is new *)
+    assert (Hadd : add_attr tg (rev k ++ [k0]) (rev v) = with_attrs tg ((k0 :: k, v) :: t_attrs tg)).
+    { unfold add_attr. rewrite rev_app_distr, !rev_involutive. cbn [rev app].
+      destruct (existsb (fun a0 => bytes_eqb (k0 :: k) (fst a0)) (t_attrs tg)) eqn:E; [|reflexivity].
+      apply existsb_exists in E as (x & Hx & Hxe).
+      specialize (Hdis x (k0 :: k, v) Hx (or_introl eq_refl)). cbn [fst] in Hdis. congruence. }
+    rewrite Hadd, IH; [| exact Hok | exact Hnd |].
+    + cbn [with_attrs t_attrs t_end t_name rev]. now rewrite <- app_assoc.
+    + intros x y Hx Hy. cbn [with_attrs t_attrs] in Hx. destruct Hx as [<-|Hx].
+      * cbn [fst]. rewrite bytes_eqb_sym. apply (Hfresh y Hy).
+      * apply (Hdis x y Hx). now right.
+Qed.
+
+Lemma run_open_tag n a out :
+  name_ok n = true -> attrs_ok a = true ->
+  run_tok (MData, out) (open_tag n a) = (MData, TStart n a :: out).
+Proof.
+  intros Hn Ha. unfold attrs_ok in Ha. apply andb_true_iff in Ha as [Hok Hnd].
+  destruct n as [|c0 n]; [discriminate|].
+  unfold name_ok in Hn. apply andb_true_iff in Hn as [Hc0 Hall].
+  cbn [forallb] in Hall. apply andb_true_iff in Hall as [Hc0c Hrest].
+  destruct (lower_is_alpha c0 Hc0) as [Halpha _].
+  destruct (name_char_props c0 Hc0c) as (_ & H47 & _ & _ & _ & _ & _ & _ & Hl).
+  assert (H33 : (c0 =? 33) = false).
+  { unfold is_lower, in_range in Hc0. apply andb_true_iff in Hc0 as [E _]. apply N.leb_le in E.
+    apply N.eqb_neq. lia. }
+  unfold open_tag. cbn [app]. rewrite !run_cons.
+  replace (step (step (MData, out) 60) c0) with (MTagName false [c0], out).
+  2:{ cbn [step N.eqb Pos.eqb]. now rewrite H33, H47, Halpha, Hl. }
+  rewrite run_tok_app, (run_tag_name false [c0] out n Hrest).
+  assert (E : rev (rev n ++ [c0]) = c0 :: n) by (now rewrite rev_app_distr, rev_involutive).
+  transitivity (run_tok (MAfterAttrValQ {| t_end := false; t_name := c0 :: n; t_attrs := [] |}, out)
+                        (attrs_html a ++ [62])).
+  - destruct a as [|[k v] a]; cbn [attrs_html flat_map attr_html app]; rewrite !run_cons;
+      cbn [step is_ws N.eqb Pos.eqb orb]; now rewrite E.
+  - rewrite run_attrs; [| exact Hok | exact Hnd | intros x y []].
+    unfold emit_tag. cbn [with_attrs t_attrs t_end t_name]. now rewrite app_nil_r, rev_involutive.
+Qed.
+
+Lemma run_close_tag n out :
+  name_ok n = true -> run_tok (MData, out) (close_tag n) = (MData, TEnd n :: out).
+Proof.
+  intro Hn. destruct n as [|c0 n]; [discriminate|].
+  unfold name_ok in Hn. apply andb_true_iff in Hn as [Hc0 Hall].
+  cbn [forallb] in Hall. apply andb_true_iff in Hall as [Hc0c Hrest].
+  destruct (lower_is_alpha c0 Hc0) as [Halpha _].
+  destruct (name_char_props c0 Hc0c) as (_ & _ & _ & _ & _ & _ & _ & _ & Hl).
+  unfold close_tag. cbn [app]. rewrite !run_cons.
+  replace (step (step (step (MData, out) 60) 47) c0) with (MTagName true [c0], out).
+  2:{ cbn [step N.eqb Pos.eqb]. now rewrite Halpha, Hl. }
+  rewrite run_tok_app, (run_tag_name true [c0] out n Hrest).
+  rewrite run_cons, run_nil.
+  cbn [step is_ws N.eqb Pos.eqb orb emit_tag t_end t_name].
+  now rewrite rev_app_distr, rev_involutive.
+Qed.
+
+Lemma kind_name_ok n k : kind_of n = Some k -> name_ok n = true.
+Proof.
+  intro H. apply kind_of_cases in H.
+  destruct H as [[-> ->]|[[[->|[->|[->| ->]]] ->]|[[-> ->]|[[[->|[->| ->]] ->]|[-> ->]]]]]; reflexivity.
+Qed.
+
+Lemma toks_forest_app a b : toks_forest (a ++ b) = toks_forest a ++ toks_forest b.
+Proof. induction a as [|x a IH]; [reflexivity|]. cbn [app toks_forest]. now rewrite IH, app_assoc. Qed.
+
+Lemma run_node d : forall in_p out,
+  node_ok in_p d = true -> run_tok (MData, out) (ser d) = (MData, rev (toks d) ++ out).
+Proof.
+  induction d as [s|s|n a ks IH] using dom_ind'; intros in_p out Hok.
+  - apply run_text.
+  - reflexivity.
+  - rewrite node_ok_elem in Hok. destruct (kind_of n) as [k|] eqn:Ek; [|discriminate].
+    apply andb_true_iff in Hok as [Hok Hks]. apply andb_true_iff in Hok as [_ Ha].
+    rewrite ser_elem, toks_elem, (kind_void_is_void _ _ Ek).
+    pose proof (kind_name_ok _ _ Ek) as Hn.
+    rewrite run_tok_app, (run_open_tag n a out Hn Ha).
+    destruct (kind_void k).
+    + cbn. reflexivity.
+    + rewrite run_tok_app.
+      assert (Hf : forall b pv o, forest_ok b ks pv = true ->
+                     run_tok (MData, o) (ser_forest ks) = (MData, rev (toks_forest ks) ++ o)).
+      { clear Hks. induction IH as [|x ks Hx _ IHks]; intros b pv o Hf; [reflexivity|].
+        cbn [forest_ok] in Hf. apply andb_true_iff in Hf as [Hf Hf2]. apply andb_true_iff in Hf as [_ Hf1].
+        cbn [ser_forest toks_forest]. rewrite run_tok_app, (Hx b o Hf1), (IHks b _ _ Hf2).
+        now rewrite rev_app_distr, <- app_assoc. }
+      rewrite (Hf _ _ _ Hks), (run_close_tag n _ Hn).
+      cbn [rev]. rewrite rev_app_distr. cbn [rev app]. now rewrite <- !app_assoc.
+Qed.
+
+Lemma run_forest f : forall in_p pv out,
+  forest_ok in_p f pv = true ->
+  run_tok (MData, out) (ser_forest f) = (MData, rev (toks_forest f) ++ out).
+Proof.
+  induction f as [|x f IH]; intros in_p pv out Hf; [reflexivity|].
+  cbn [forest_ok] in Hf. apply andb_true_iff in Hf as [Hf Hf2]. apply andb_true_iff in Hf as [_ Hf1].
+  cbn [ser_forest toks_forest]. rewrite run_tok_app, (run_node x in_p out Hf1), (IH in_p _ _ Hf2).
+  now rewrite rev_app_distr, <- app_assoc.
+Qed.
+
+Lemma tokenize_forest f in_p :
+  forest_ok in_p f false = true -> tokenize (ser_forest f) = Some (toks_forest f).
+Proof.
+  intro H. unfold tokenize. rewrite (run_forest f in_p false [] H). now rewrite app_nil_r, rev_involutive.
+Qed.
